@@ -10,6 +10,7 @@ import (
 	"fmt"
 	"os"
 	"io"
+	"reflect"
 	"sync"
 {{if not .NoAST}}	"bytes"
 {{end}})
@@ -108,6 +109,34 @@ func (p *{{.Type}}[U]) P(k, pos int) bool { return (pos*7+k*3)%5 != 0 }
 
 var entryRules = []pegRule{ {{range .RuleNames}}rule{{.}}, {{end}} }
 
+
+// errToken reads the furthest token out of the error value by reflection (a field "maxToken" of the error or of the
+// parser it points to, with fields pegRule/begin/end): the probe must keep working when the error type is
+// rearranged, as long as the information is there; nil when it cannot be found.
+func errToken(err error) *Tk {
+	defer func() { recover() }()
+	v := reflect.Indirect(reflect.ValueOf(err))
+	if v.Kind() != reflect.Struct {
+		return nil
+	}
+	f := v.FieldByName("maxToken")
+	if !f.IsValid() {
+		for i := 0; i < v.NumField() && !f.IsValid(); i++ {
+			if pv := v.Field(i); pv.Kind() == reflect.Pointer && !pv.IsNil() && pv.Elem().Kind() == reflect.Struct {
+				f = pv.Elem().FieldByName("maxToken")
+			}
+		}
+	}
+	if !f.IsValid() || f.Kind() != reflect.Struct {
+		return nil
+	}
+	r, b, e := f.FieldByName("pegRule"), f.FieldByName("begin"), f.FieldByName("end")
+	if !r.IsValid() || !b.IsValid() || !e.IsValid() || int(r.Uint()) >= len(rul3s) {
+		return nil
+	}
+	return &Tk{rul3s[r.Uint()], b.Uint(), e.Uint()}
+}
+
 func collect[U Uint](p *{{.Type}}[U], err error, req *Req, res *Res) {
 	res.OK = err == nil
 	res.NRunes = len([]rune(p.Buffer))
@@ -116,9 +145,7 @@ func collect[U Uint](p *{{.Type}}[U], err error, req *Req, res *Res) {
 	res.Events = p.Events
 	if err != nil {
 		res.ErrType = fmt.Sprintf("%T", err)
-		if pe, ok := err.(*parseError[U]); ok {
-			res.Max = &Tk{rul3s[pe.maxToken.pegRule], uint64(pe.maxToken.begin), uint64(pe.maxToken.end)}
-		}
+		res.Max = errToken(err)
 		res.Err = err.Error()
 		return
 	}
@@ -619,6 +646,7 @@ const bareProbeTmpl = `package {{.Pkg}}
 import (
 	"encoding/json"
 	"fmt"
+	"reflect"
 )
 
 type Tk struct {
@@ -648,6 +676,34 @@ type Res struct {
 	NRunes int
 }
 
+
+// errToken reads the furthest token out of the error value by reflection (a field "maxToken" of the error or of the
+// parser it points to, with fields pegRule/begin/end): the probe must keep working when the error type is
+// rearranged, as long as the information is there; nil when it cannot be found.
+func errToken(err error) *Tk {
+	defer func() { recover() }()
+	v := reflect.Indirect(reflect.ValueOf(err))
+	if v.Kind() != reflect.Struct {
+		return nil
+	}
+	f := v.FieldByName("maxToken")
+	if !f.IsValid() {
+		for i := 0; i < v.NumField() && !f.IsValid(); i++ {
+			if pv := v.Field(i); pv.Kind() == reflect.Pointer && !pv.IsNil() && pv.Elem().Kind() == reflect.Struct {
+				f = pv.Elem().FieldByName("maxToken")
+			}
+		}
+	}
+	if !f.IsValid() || f.Kind() != reflect.Struct {
+		return nil
+	}
+	r, b, e := f.FieldByName("pegRule"), f.FieldByName("begin"), f.FieldByName("end")
+	if !r.IsValid() || !b.IsValid() || !e.IsValid() || int(r.Uint()) >= len(rul3s) {
+		return nil
+	}
+	return &Tk{rul3s[r.Uint()], b.Uint(), e.Uint()}
+}
+
 func one(req *Req) (res Res) {
 	res.Seq = req.Seq
 	defer func() {
@@ -675,9 +731,7 @@ func one(req *Req) (res Res) {
 	res.NRunes = len([]rune(p.Buffer))
 	if err != nil {
 		res.ErrType = fmt.Sprintf("%T", err)
-		if pe, ok := err.(*parseError[uint32]); ok {
-			res.Max = &Tk{rul3s[pe.maxToken.pegRule], uint64(pe.maxToken.begin), uint64(pe.maxToken.end)}
-		}
+		res.Max = errToken(err)
 		res.Err = err.Error()
 		return
 	}
